@@ -317,8 +317,8 @@ def sym_astype(E, p, kf):
     src, dst = p["src"], p["dst"]
     R, lens, S, data = gen(E, p, "bv64" if src == "int64" else src)
     ra = mk_ragged(RaggedArray, data, lens, src)
-    got = outcome(lambda: (ra.astype(dst), ra))
-    case = dict(lens=lens, data=data, dtype=src, dst=dst)
+    got = outcome(lambda: _astype_run(ra, dst, p.get("write")))
+    case = dict(lens=lens, data=data, dtype=src, dst=dst, write=p.get("write"))
     if got["k"] != "tuple":
         return dict(goal=False, got=got, case=case)
     sb, db = _bits(src), _bits(dst)
@@ -332,8 +332,17 @@ def sym_astype(E, p, kf):
             conv.append(z3.Extract(db - 1, 0, d) if db < sb else d)
         else:
             conv.append(z3.SignExt(db - sb, d) if src.startswith("int") else z3.ZeroExt(db - sb, d))
+    if p.get("write"):
+        conv = [(z3.BoolVal(True) if dst == "bool" else z3.BitVecVal(1, db)) for _ in data]       # the converted array was overwritten; the source still holds its rows
     exp = dict(k="tuple", items=[dict(k="ragged", flat=conv, lens=lens, dtype=dst), dict(k="ragged", flat=data, lens=lens, dtype=src)])
     return dict(goal=specs.obs_goal(got, exp), got=got, case=case)
+
+
+def _astype_run(ra, dst, write):
+    b = ra.astype(dst)
+    if write:
+        b[...] = 1          # the converted array is an array of its own (also when the element type did not change)
+    return b, ra
 
 
 def _bits(dt):
@@ -347,8 +356,10 @@ def conc_astype(case):
     if src in ("int64",):
         data = [d - (1 << 64) if d >= 1 << 63 else d for d in data]
     ra = mk_ragged(RaggedArray, np.array(data, dtype=src) if data else [], case["lens"], src)
-    got = outcome(lambda: (ra.astype(dst), ra))
+    got = outcome(lambda: _astype_run(ra, dst, case.get("write")))
     conv = np.array(data, dtype=src).astype(dst).tolist() if data else []
+    if case.get("write"):
+        conv = [True if dst == "bool" else 1 for _ in conv]
     return got, dict(k="tuple", items=[common.ref_ragged(common.rows_of(conv, case["lens"]), dst),
                                        common.ref_ragged(common.rows_of(data, case["lens"]), src)])
 
@@ -485,7 +496,9 @@ def jobs_astype(tier, seed):
     q = tier == "quick"
     base = dict(R=3 if q else 4, L=3)
     pairs = [("int64", "int32"), ("int64", "uint8"), ("int32", "int64"), ("uint8", "int64"), ("int8", "int16"), ("int64", "bool"), ("uint8", "bool")]
-    return [dict(h="C01.astype", p=dict(base, src=s, dst=d)) for s, d in pairs]
+    out = [dict(h="C01.astype", p=dict(base, src=s, dst=d)) for s, d in pairs]
+    out += [dict(h="C01.astype", p=dict(base, src=s, dst=d, write=True)) for s, d in (("int64", "int64"), ("uint8", "uint8"), ("uint8", "int64"))]
+    return out
 
 
 def jobs_numpy(tier, seed):
